@@ -1,76 +1,336 @@
+// bbcheck decides the go-bigbuff properties C01..C20 by static analysis of /repo's current
+// working tree. It never executes library code.
+//
+//	bbcheck check  -prop C04 [-tier quick|thorough] [-repo /repo] [-verif /verif]
+//	bbcheck replay -prop C04 -file /verif/evidence/violations/C04-....json
+//	bbcheck dump   [-v]            (all E1 obligations, for development)
 package main
 
 import (
+	"encoding/json"
+	"flag"
 	"fmt"
 	"os"
+	"path/filepath"
 	"sort"
+	"strconv"
+	"strings"
+	"time"
 
 	"bbcheck/internal/an"
 	"bbcheck/internal/props"
 )
 
+type finding struct {
+	Status   string `json:"status"` // finding | fixed
+	Property string `json:"property"`
+	Key      string `json:"key"`
+	Commit   string `json:"commit,omitempty"`
+	What     string `json:"what"`
+	Line     string `json:"line"`
+}
+
+type findingsFile struct {
+	Findings []finding `json:"findings"`
+}
+
 func main() {
-	dir := "/repo"
-	if d := os.Getenv("BB_REPO"); d != "" {
-		dir = d
-	}
-	p, err := an.Load(dir, nil, "")
-	if err != nil {
-		fmt.Println("LOAD ERROR:", err)
+	if len(os.Args) < 2 {
+		fmt.Println("usage: bbcheck check|replay|dump|list ...")
 		os.Exit(2)
 	}
-	fmt.Println("funcs:", len(p.Funcs), "files:", p.Files)
+	defer func() {
+		if r := recover(); r != nil {
+			fmt.Fprintf(os.Stderr, "bbcheck: internal error (analysis could not run): %v\n", r)
+			panic(r)
+		}
+	}()
+	cmd := os.Args[1]
+	fs := flag.NewFlagSet(cmd, flag.ExitOnError)
+	prop := fs.String("prop", "", "property id")
+	tier := fs.String("tier", "quick", "quick|thorough")
+	repo := fs.String("repo", "/repo", "repository directory")
+	verif := fs.String("verif", "/verif", "verif directory")
+	file := fs.String("file", "", "replay file")
+	verbose := fs.Bool("v", false, "verbose")
+	fs.Parse(os.Args[2:])
+	if e := os.Getenv("BB_REPO"); e != "" {
+		*repo = e
+	}
+	switch cmd {
+	case "list":
+		for _, id := range props.IDs() {
+			fmt.Println(id)
+		}
+	case "dump":
+		dump(*repo, *verbose)
+	case "check":
+		os.Exit(check(*prop, *tier, *repo, *verif, ""))
+	case "replay":
+		b, err := os.ReadFile(*file)
+		if err != nil {
+			fmt.Println("replay:", err)
+			os.Exit(2)
+		}
+		var rp struct {
+			Property string `json:"property"`
+			Key      string `json:"key"`
+		}
+		json.Unmarshal(b, &rp)
+		if *prop == "" {
+			*prop = rp.Property
+		}
+		os.Exit(check(*prop, *tier, *repo, *verif, rp.Key))
+	default:
+		fmt.Println("unknown command", cmd)
+		os.Exit(2)
+	}
+}
+
+func loadAll(repo, arch string) (*props.Ctx, error) {
+	p, err := an.Load(repo, nil, arch)
+	if err != nil {
+		return nil, err
+	}
+	if p.Files < 15 {
+		return nil, fmt.Errorf("only %d library files loaded (expected >= 15)", p.Files)
+	}
 	s, err := an.NewSim(p, props.E1Tables())
 	if err != nil {
-		fmt.Println("ANCHOR ERROR:", err)
-		os.Exit(2)
+		return nil, err
 	}
 	s.AddAPIRoots()
 	s.Run()
+	ctx := &props.Ctx{P: p, Sim: s, C: an.NewCollector(p)}
 	var keys []string
 	for k := range s.Obs {
 		keys = append(keys, k)
 	}
 	sort.Strings(keys)
-	bad := 0
 	for _, k := range keys {
-		o := s.Obs[k]
-		st := "ok "
-		if o.Violated {
-			st = "BAD"
-			bad++
+		ctx.SimObs = append(ctx.SimObs, an.FromOb(s.Obs[k]))
+	}
+	ctx.SimObs = append(ctx.SimObs, an.OrderObligations(s)...)
+	for _, e := range s.Errors {
+		ctx.SimObs = append(ctx.SimObs, &an.Oblig{Rule: "ANCHOR", Func: "-", Subject: e, Key: "ANCHOR/-/" + e, Status: "undecided", Detail: e})
+	}
+	return ctx, nil
+}
+
+func check(id, tier, repo, verif, onlyKey string) int {
+	start := time.Now()
+	pr := props.Get(id)
+	if pr == nil {
+		fmt.Printf("bbcheck: property %s is not claimed by this checker\n", id)
+		return 2
+	}
+	seed, _ := strconv.Atoi(os.Getenv("VERIF_SEED"))
+	archs := []string{""}
+	if tier == "thorough" {
+		archs = []string{"", "386", "arm64"}
+	}
+	var all []*an.Oblig
+	var stats []map[string]any
+	var floorFails []string
+	for _, arch := range archs {
+		ctx, err := loadAll(repo, arch)
+		if err != nil {
+			fmt.Printf("bbcheck: cannot analyse %s (GOARCH=%q): %v\n", repo, arch, err)
+			return 2
 		}
-		if len(os.Args) > 1 && os.Args[1] == "-v" || o.Violated {
-			fmt.Printf("%s %-90s n=%d %s\n", st, k, o.Instances, pickS(o.Fail, o.Witness))
-			if o.Violated {
-				fmt.Println("      at", o.FailPos)
+		obs := pr.Build(ctx)
+		tag := ""
+		if arch != "" {
+			tag = " [GOARCH=" + arch + "]"
+		}
+		// floors (anti-vacuity)
+		for _, f := range pr.Floors {
+			n := 0
+			for _, o := range obs {
+				if f.Match(o) {
+					n++
+				}
+			}
+			if n < f.Min {
+				floorFails = append(floorFails, fmt.Sprintf("%s: %d matched, at least %d required%s", f.Desc, n, f.Min, tag))
+				obs = append(obs, &an.Oblig{Rule: "FLOOR", Func: "-", Subject: f.Desc, Key: "FLOOR/-/" + f.Desc, Status: "undecided",
+					Detail: fmt.Sprintf("anti-vacuity floor: rule row %q matched %d sites, at least %d were confirmed by hand; an anchor no longer resolves or the table must be re-confirmed%s", f.Desc, n, f.Min, tag)})
+			}
+		}
+		for _, o := range obs {
+			if arch != "" {
+				c := *o
+				c.Key += tag
+				all = append(all, &c)
+			} else {
+				all = append(all, o)
+			}
+		}
+		stats = append(stats, map[string]any{"goarch": pick(arch, "default"), "functions": len(ctx.P.Funcs), "files": ctx.P.Files,
+			"roots": ctx.Sim.NRoots, "frames": ctx.Sim.NFrames, "ssa_instructions_stepped": ctx.Sim.NInstr, "abstract_states": ctx.Sim.NStates,
+			"functions_simulated": len(ctx.Sim.FuncsSeen)})
+	}
+	// known findings
+	var ff findingsFile
+	if b, err := os.ReadFile(filepath.Join(verif, "known_findings.json")); err == nil {
+		json.Unmarshal(b, &ff)
+	}
+	violations := 0
+	discharged := 0
+	nontrivial := map[string]bool{}
+	var viols []*an.Oblig
+	for _, o := range all {
+		if onlyKey != "" && !strings.HasPrefix(o.Key, onlyKey) {
+			continue
+		}
+		switch o.Status {
+		case "discharged":
+			discharged++
+			if o.Witness != "" && o.Instances > 0 {
+				nontrivial[o.Key] = true
+			}
+		default:
+			known := false
+			for _, f := range ff.Findings {
+				if f.Status == "finding" && f.Property == id && strings.HasPrefix(o.Key, f.Key) {
+					known = true
+					fmt.Printf("KNOWN-FINDING: property=%s %s\n", id, f.What)
+				}
+			}
+			if !known {
+				violations++
+				viols = append(viols, o)
 			}
 		}
 	}
-	var ek []string
-	for k := range s.Edges {
-		ek = append(ek, k)
+	// evidence
+	os.MkdirAll(filepath.Join(verif, "evidence", "violations"), 0o755)
+	for i, o := range viols {
+		rp := filepath.Join(verif, "evidence", "violations", fmt.Sprintf("%s-%02d.json", id, i))
+		b, _ := json.MarshalIndent(map[string]any{"property": id, "key": o.Key, "status": o.Status, "rule": o.Rule, "func": o.Func,
+			"subject": o.Subject, "detail": o.Detail, "pos": o.Pos, "contexts": o.Contexts,
+			"replay": "cd /verif && ./check.sh --replay " + rp}, "", " ")
+		os.WriteFile(rp, b, 0o644)
+		where := "-"
+		if len(o.Pos) > 0 {
+			where = o.Pos[0]
+		}
+		fmt.Printf("  %s %s at %s: %s\n", strings.ToUpper(o.Status), o.Key, where, o.Detail)
+		fmt.Printf("VIOLATION property=%s replay=%s\n", id, rp)
 	}
-	sort.Strings(ek)
-	for _, k := range ek {
-		fmt.Println("EDGE", k, s.Edges[k].Pos, s.Edges[k].Func)
+	if onlyKey != "" {
+		for _, o := range all {
+			if strings.HasPrefix(o.Key, onlyKey) && o.Status == "discharged" {
+				fmt.Printf("  DISCHARGED %s: %s\n", o.Key, o.Witness)
+			}
+		}
+		if violations > 0 {
+			return 1
+		}
+		return 0
 	}
-	fmt.Println("roots", s.NRoots, "frames", s.NFrames, "instrs", s.NInstr, "states", s.NStates, "obs", len(keys), "bad", bad)
-	for _, e := range s.Errors {
-		fmt.Println("ERR", e)
+	samples := pickSamples(all, seed)
+	ev := map[string]any{
+		"property_id": id,
+		"tier":        tier,
+		"seed":        seed,
+		"level":       "other",
+		"wall_s":      time.Since(start).Seconds(),
+		"violations":  violations,
+		"assumptions": append([]string{
+			"Go type checker and go/ssa (x/tools v0.29.0) represent the program faithfully",
+			"the modelled semantics of sync, sync/atomic, context, time, reflect (DESIGN.md section 2.1 / A.3)",
+			"callers obey the documented contracts (ChanPubSub/ChanCaster contract; first call on a zero Buffer precedes sharing; callbacks do not re-enter the same object)",
+		}, pr.Trusted...),
+		"coverage": map[string]any{
+			"explanation": "Static analysis of the current source of " + repo + " (no execution). Decided: " + pr.Explanation +
+				" NOT decided: " + pr.NotDecided,
+			"obligations":         len(all),
+			"discharged":          discharged,
+			"evaluations":         len(all),
+			"distinct_nontrivial": len(nontrivial),
+			"rule": "one obligation = property/rule/construct (function + semantic subject), evaluated on every path and calling context of the SSA program; " +
+				"non-trivial = discharged with a non-empty witness from at least one matched site; floors fail the check if a table row matches nothing",
+			"samples":      samples,
+			"checker_cmd":  "/verif/check.sh " + id + " " + tier,
+			"trusted_base": []string{"go/types", "golang.org/x/tools/go/ssa v0.29.0", "std-function model table", "reasoned exception tables in tool/internal/props"},
+			"analysed":     stats,
+			"floor_failures": floorFails,
+			"exhaustive":   false,
+		},
 	}
+	b, _ := json.MarshalIndent(ev, "", " ")
+	if err := os.WriteFile(filepath.Join(verif, "evidence", id+".json"), b, 0o644); err != nil {
+		fmt.Println("bbcheck: cannot write evidence:", err)
+		return 2
+	}
+	fmt.Printf("bbcheck %s %s: %d obligations, %d discharged, %d violated/undecided, %.1fs\n", id, tier, len(all), discharged, violations, time.Since(start).Seconds())
+	if violations > 0 {
+		return 1
+	}
+	return 0
+}
+
+func pick(a, b string) string {
+	if a != "" {
+		return a
+	}
+	return b
+}
+
+func pickSamples(all []*an.Oblig, seed int) []any {
+	var out []any
+	seenRule := map[string]int{}
+	// deterministic spread over rules, rotated by the seed
+	n := len(all)
+	if n == 0 {
+		return []any{"(no obligations)"}
+	}
+	for i := 0; i < n && len(out) < 12; i++ {
+		o := all[(i*7+seed)%n]
+		if seenRule[o.Rule] >= 2 {
+			continue
+		}
+		seenRule[o.Rule]++
+		out = append(out, map[string]any{"key": o.Key, "status": o.Status, "witness": pick(o.Witness, o.Detail), "pos": o.Pos, "contexts": o.Contexts, "instances": o.Instances})
+	}
+	return out
+}
+
+func dump(repo string, verbose bool) {
+	ctx, err := loadAll(repo, "")
+	if err != nil {
+		fmt.Println("LOAD ERROR:", err)
+		os.Exit(2)
+	}
+	s := ctx.Sim
+	bad := 0
+	for _, o := range ctx.SimObs {
+		if o.Status != "discharged" {
+			bad++
+		}
+		if verbose || o.Status != "discharged" {
+			tag := "ok "
+			if o.Status != "discharged" {
+				tag = "BAD"
+			}
+			fmt.Printf("%s %-90s n=%d %s %v\n", tag, o.Key, o.Instances, pick(o.Detail, o.Witness), o.Pos)
+		}
+	}
+	fmt.Println("roots", s.NRoots, "frames", s.NFrames, "instrs", s.NInstr, "states", s.NStates, "obs", len(ctx.SimObs), "bad", bad)
 	var un []string
-	for _, fn := range p.Funcs {
+	for _, fn := range ctx.P.Funcs {
 		if !s.FuncsSeen[an.FuncName(fn)] {
 			un = append(un, an.FuncName(fn))
 		}
 	}
 	fmt.Println("unvisited:", un)
-}
-
-func pickS(a, b string) string {
-	if a != "" {
-		return a
+	if verbose {
+		for _, b := range s.Blocked {
+			fmt.Println("BLOCK", b.Func, b.Op, b.Pos, b.Held, "root:", b.Root)
+		}
+		for _, sp := range s.Spawns {
+			fmt.Println("SPAWN", sp.Kind, sp.Func, "by", sp.Spawner, sp.Pos, sp.Held)
+		}
 	}
-	return b
 }
